@@ -395,6 +395,11 @@ def check_c02(prog, rep, tier, cfg):
     # ---------------------------------------------------------------- C02.h same text except the documented normalisations
     text.documented_normalisations(prog, rep, "C02.h")
     text.characters_compared_as_characters(prog, rep, "C02.j")
+    # C02.k — the scanner's sibling routines (AVX2 / scalar / dispatch map) accept the same characters (shared with C13.b): where they
+    # disagree, the same text is cut into other tokens depending on length, alignment and CPU
+    import lexer_rules as _lx
+    from engine import AliasReport as _Alias
+    _lx.check_c13(prog, _Alias(rep, [("C13.b", r".", "C02.k")]), tier, cfg)
     # ---------------------------------------------------------------- C02.i who may change a token's kind, and which tokens
     R = "C02.i"
     writers = {}
